@@ -209,6 +209,14 @@ class StepOperationExecutor(OperationExecutor[T]):
             ExecutionError: For fatal errors that should not be retried
             May raise other exceptions that will be handled by retry_handler
         """
+        # A retry attempt found READY or STARTED gets here without a START update, i.e. without the
+        # orphan check every update goes through: a branch whose parent context has completed must
+        # stop here, before the user function runs.
+        self.state.ensure_not_orphaned(
+            self.operation_identifier.operation_id,
+            self.operation_identifier.parent_id,
+        )
+
         # Get current attempt - checkpointed attempts + 1
         attempt: int = 1
         if checkpointed_result.operation and checkpointed_result.operation.step_details:
